@@ -1,3 +1,5 @@
+import e2e
+
 SPEC = {
     "corr": [{"kind": "nf9-wf", "quick": 6000, "thorough": 600000},
              {"kind": "nf9", "quick": 4000, "thorough": 300000},
@@ -7,6 +9,9 @@ SPEC = {
              # (values that alias a recycled receive buffer show only here; seed C03-f)
              {"kind": "pipeline", "quick": 32, "thorough": 1200, "runner": {"pkg": "./vflow", "test": "TestVerifPipeline", "race": False},
               "env": {"VERIF_PIPE_PROTO": "v9"}}],
+    # the information model the templates range over is the LOADED one: start-ups of the real binary with an ipfix.elements file that
+    # adds an extension element, a NetFlow v9 exporter using it, the IPFIX listener switched off (three in four) or on (F34)
+    "extra": [e2e.startup_cycles],
     "rule": "nf9-wf: sessions of well-formed generated NetFlow v9 export packets (template / options template / data "
             "flowsets, any field lengths incl. integers in more octets than their type (size+1..8 and 9..12), data records of any "
             "positive length, flowset padding of 0 .. min(record length - 1, 7) octets) with a "
